@@ -18,7 +18,7 @@ func init() {
 	register(&Driver{
 		ID:        "C04",
 		Technique: "explicit-state exploration: all well-nested operation trees (create / nested create / lookups with and without early references / failing create / failing early factory) up to a size bound executed on a fresh real singleton registry with a reference automaton stepped alongside; plus the same automaton monitored on every registry call of real starts with every single injected fault, followed by repeated lookups",
-		Rule:      "layer 1: op trees over names {a,b}, ops {Get(n,early?), InCreation(n), Create(n){body}->ok|err with ok|failing early factory}, <=4 ops nesting <=2 (thorough <=5/3); states = distinct abstract protocol states (per name: published, creating depth, early ref seen, failed, in-creation mark); layers 2+3: 3-node graphs x lazy masks x every single fault site, then 3 rounds of by-name lookups; non-trivial = history contains a nested or failing creation",
+		Rule:      "layer 1: op trees over names {a,b}, ops {Get(n,early?), InCreation(n), Add(n) (direct publication), Create(n){body}->ok|err with ok|failing early factory}, <=4 ops nesting <=2 (thorough <=5/3); states = distinct abstract protocol states (per name: published, creating depth, early ref seen, failed, in-creation mark); layers 2+3: 3-node graphs x lazy masks x every single fault site, then 3 rounds of by-name lookups; non-trivial = history contains a nested or failing creation",
 		Assumptions: []string{
 			"registry-level histories are those a factory can issue: the creation body starts by registering the early-reference factory; no re-entrant creation of a name already in creation",
 			"> 2 names or > 5 operations at registry level are not covered",
@@ -74,6 +74,8 @@ type c04World struct {
 	inCreat map[string]bool
 	pubs    map[string]*cd.Meta
 	failedN map[string]bool
+	// addedDuring: the name was published directly (Add) while its own creation was running
+	addedDuring map[string]bool
 }
 
 var c04Names = []string{"a", "b"}
@@ -94,6 +96,17 @@ func (w *c04World) exec(ops []c04Op) {
 			}
 			if w.failedN[o.N] && !w.inCreat[o.N] && got != nil && err == nil {
 				w.viol = append(w.viol, fmt.Sprintf("%s(%s) after a failed creation returned an instance with nil error", o.K, o.N))
+			}
+		case "AD":
+			// direct publication (AddSingleton) of a fresh instance, possibly for a name whose
+			// creation is still running
+			m := cd.NewMeta(&dummyComp{"added-" + o.N})
+			w.reg.AddSingleton(o.N, m)
+			if w.inCreat[o.N] {
+				w.addedDuring[o.N] = true
+			} else {
+				w.pubs[o.N] = m
+				w.failedN[o.N] = false
 			}
 		case "CR":
 			if w.inCreat[o.N] {
@@ -121,6 +134,29 @@ func (w *c04World) exec(ops []c04Op) {
 				return produced, nil
 			}))
 			w.inCreat[o.N] = false
+			if w.addedDuring[o.N] {
+				// the name was published directly while its creation ran: which of the two
+				// instances wins is not fixed by the property; afterwards it must be stable
+				w.addedDuring[o.N] = false
+				if err == nil {
+					if now, e2 := w.reg.GetSingleton(o.N, false); e2 == nil && now != nil {
+						w.pubs[o.N] = now
+						if got != now {
+							w.viol = append(w.viol, fmt.Sprintf("Create(%s) returned another instance than the one published afterwards", o.N))
+						}
+					}
+				} else {
+					w.failedN[o.N] = false
+					delete(w.pubs, o.N)
+					if now, e2 := w.reg.GetSingleton(o.N, false); e2 == nil && now != nil {
+						w.pubs[o.N] = now
+					}
+				}
+				if w.reg.IsSingletonCurrentlyInCreation(o.N) {
+					w.viol = append(w.viol, fmt.Sprintf("'%s' is still reported as in creation after Create(%s) returned", o.N, o.N))
+				}
+				continue
+			}
 			if p := w.pubs[o.N]; p != nil {
 				if ran || got != p || err != nil {
 					w.viol = append(w.viol, fmt.Sprintf("Create(%s) on a published name: factory re-run=%v, same instance=%v", o.N, ran, got == p))
@@ -164,7 +200,7 @@ func c04Seqs(depth, budget int, prefix []c04Op, yield func([]c04Op) bool) bool {
 		return true
 	}
 	for _, n := range c04Names {
-		for _, k := range []string{"G0", "G1", "IC"} {
+		for _, k := range []string{"G0", "G1", "IC", "AD"} {
 			if !c04Seqs(depth, budget-1, append(prefix[:len(prefix):len(prefix)], c04Op{K: k, N: n}), yield) {
 				return false
 			}
@@ -218,7 +254,7 @@ func c04Trees(c *core.Ctx) {
 	}
 	Cases(c, gen, func(c *core.Ctx, cs c04Case) {
 		tr := scen.NewTraceSCR(64, 1<<30)
-		w := &c04World{tr: tr, states: states, inCreat: map[string]bool{}, pubs: map[string]*cd.Meta{}, failedN: map[string]bool{}}
+		w := &c04World{tr: tr, states: states, inCreat: map[string]bool{}, pubs: map[string]*cd.Meta{}, failedN: map[string]bool{}, addedDuring: map[string]bool{}}
 		w.reg = tr.Wrap(support.DefaultSingletonComponentRegistry())
 		w.exec(cs.Ops)
 		c.S.Evaluations++
